@@ -41,6 +41,12 @@ def gen_case(r, big):
     sn = 0
     n = r.randint(4, 14 if big else 10)
     hole = False
+    alive = {}  # sn -> expiry of the changes the writer history holds
+
+    def can_join():
+        live = sorted(k for k, e in alive.items() if e > now)
+        return sn == 0 or (live and live == list(range(live[0], sn + 1)))
+
     for i in range(n):
         k = r.random()
         if k < 0.35 and sn < 200 and not hole:
@@ -55,7 +61,10 @@ def gen_case(r, big):
             tsv = now if ts is None else ts
             if joined and tsv + L > now:
                 flight += 1
-            if joined and tsv + L <= now:
+            alive[sn] = tsv + L
+            if tsv + L <= now:
+                del alive[sn]
+            if tsv + L <= now:
                 # a sample dropped at write leaves a hole in the sequence numbers; what the RTPS
                 # writer does with the NEXT change after a hole (GAP handling) belongs to other
                 # properties: no further writes in this scenario
@@ -66,7 +75,9 @@ def gen_case(r, big):
             now += dt
         elif k < 0.8:
             if not joined:
-                if r.random() < 0.5:
+                # the late joiner must find a history without holes (what the RTPS writer sends
+                # for a history with holes is the subject of other properties)
+                if r.random() < 0.5 and can_join():
                     ops.append(("join",))
                     joined = True
                 continue
@@ -84,8 +95,11 @@ def gen_case(r, big):
         else:
             if joined:
                 ops.append((r.choice(["t", "t", "r"]),))
-    if not joined:
+    if not joined and can_join():
         ops.append(("join",))
+        joined = True
+    if not joined:
+        return gen_case(r, big)
     if held:
         ops.append(("rel",))
     ops.append(("net",))
@@ -94,7 +108,7 @@ def gen_case(r, big):
 
 
 def gen(r, tier):
-    n = {"quick": 240, "search": 1200, "thorough": 4000}[tier]
+    n = {"quick": 170, "search": 900, "thorough": 2500}[tier]
     return [gen_case(r, tier != "quick") for _ in range(n)]
 
 
